@@ -1,7 +1,7 @@
 """C19 facts: feature tables from Cargo.toml (cross-checked with `cargo metadata`) and an item-level scan of
 `#[cfg(feature ..)]` gates with, per gated context, the optional crates and gated sibling items it refers to.
 Emits lean/PasetoModel/Extracted/Features.lean."""
-import json, os, re, subprocess, tomllib
+import json, os, re, subprocess, sys, tomllib
 
 CRATES = ["paseto-v1", "paseto-v2", "paseto-v3", "paseto-v4"]
 
@@ -225,4 +225,4 @@ def cargo_metadata_features(repo="/repo"):
 
 if __name__ == "__main__":
     text, info = emit()
-    print(text)
+    sys.stdout.write(text)
